@@ -743,7 +743,20 @@ func (c *Ctx) callCallback(fv *Val, name string, args []*Val, x *ast.CallExpr) *
 		keep = append(keep, c.evalModEntry(e, nil, True)...)
 	}
 	c.bound = saved
-	c.havocEverythingExcept(keep, oldHeap, oldTop)
+	keepsAll := false
+	for _, e := range keep {
+		if e.all {
+			keepsAll = true
+		}
+	}
+	if keepsAll {
+		// `preserves everything()`: the callback only allocates (its results live above the old frontier)
+		nt := c.fresh("top", SInt)
+		c.assume(Le(c.St.Top, nt))
+		c.St.Top = nt
+	} else {
+		c.havocEverythingExcept(keep, oldHeap, oldTop)
+	}
 	// results
 	n := sig.Results().Len()
 	res := make([]*Val, n)
